@@ -36,7 +36,8 @@ class C15(vlib.Driver):
     assumptions = ["torch semantics modelled, validated by K only: unsqueeze / view(-1, *s) / squeeze() / F.one_hot / split / cat / stack / "
                    "broadcasting, np.reshape / np.stack row-major order",
                    "obs_to_tensor's .float() is the identity on the generated values (all exactly representable in float32)",
-                   "image normalisation with non-dyadic ranges (0..255) is compared with relative tolerance 2^-22 (float32 division)",
+                   "image normalisation with non-dyadic ranges (0..255, -3..3) and float64 inputs that float32 cannot represent are compared with "
+                   "relative tolerance 2^-22 (float32 rounding)",
                    "row-wise networks: evaluation-mode MLP/CNN encoders without BatchNorm (hypothesis of batch_independent)"]
     shard = 120
 
@@ -78,6 +79,12 @@ class C15(vlib.Driver):
                 if r == 0:
                     add(sp, [], "number")
                 add(sp, [2, 2, 2], "numpy", True)            # malformed: three leading dimensions
+        # float64 observations that are rounded by obs_to_tensor's .float() (compared with relative tolerance 2^-22)
+        for shape in [[], [3], [1, 2, 2]]:
+            sp = {"t": "box", "shape": shape, "dtype": "float64", "low": -3, "high": 3}
+            for lead in leads:
+                for inp in ["numpy", "tensor"]:
+                    add(sp, lead, inp, True)
         # Discrete
         for n in [1, 2, 3, 5]:
             sp = {"t": "discrete", "n": n}
@@ -155,7 +162,7 @@ class C15(vlib.Driver):
                 cases.append({"kind": "vect", "space": {"t": "tuple", "members": [leafs[k] for k in combo]},
                               "lead": lead, "input": "numpy", "pat": 0})
         # seeded stream: random space x lead x value pattern x input kind (replays exactly from the seed)
-        for _ in range(150 if not thorough else 2500):
+        for _ in range(150 if not thorough else 5000):
             kind = rng.choice(["box", "box", "discrete", "md", "mb"])
             if kind == "box":
                 shape = [rng.randint(1, 3) for _ in range(rng.randint(0, 4))]
@@ -221,6 +228,8 @@ class C15(vlib.Driver):
         sp = coq_space(case["space"])
         o = coq_obs(case, arrays)
         if case["kind"] == "vect":
+            if case["input"] == "number" and "err" in obs:
+                return None          # `.shape` of a Python number: not a tensor-level behaviour, reported by the oracle only
             seen = f"(Some {obs['ok']})" if "ok" in obs else "None"
             return f"check_vect true {sp} {o} {seen}"
         # the MultiDiscrete (step, env) defect: pinned semantics when the tree raises, repaired semantics otherwise
